@@ -8,6 +8,7 @@ import io
 from .. import env, tlc
 from ..vloop import World
 from ..simnet import Network, SimPeer
+from ..sessions import inner
 from ..w2 import W2, MockSock, Descriptor
 
 SEQUENCED = {b"AVERS", b"CURCH", b"SFILE", b"STATU", b"STATQ", b"SPACK", b"GETWC", b"SETWC",
@@ -38,6 +39,21 @@ def wire_history(datagrams):
     return hist
 
 
+class WcPeer(SimPeer):
+    """the bundled simulator + an answer to SETWC (which it leaves unanswered, see C04/D13), so that a
+    water-care change completes instead of exhausting its retries"""
+
+    def on_datagram(self, data, sender):
+        from geckolib.driver import GeckoPacketProtocolHandler
+        out = super().on_datagram(data, sender)
+        content = inner(data)
+        if content is not None and content.startswith(b"SETWC"):
+            ph = GeckoPacketProtocolHandler()
+            ph.handle(data, sender)
+            out.append((GeckoPacketProtocolHandler(content=b"WCSET", parms=ph.parms).send_bytes, (sender[0], sender[1])))
+        return out
+
+
 def async_session(n_cmds, rng, snapshot="/repo/tests/snapshots/default.snapshot"):
     from geckolib import GeckoAsyncSpaMan
 
@@ -48,7 +64,7 @@ def async_session(n_cmds, rng, snapshot="/repo/tests/snapshots/default.snapshot"
         async def handle_event(self, event, **kw):
             pass
 
-    peer = SimPeer(snapshot)
+    peer = WcPeer(snapshot)
     net = Network([peer])
     with World(net) as w:
         async def main():
@@ -62,8 +78,11 @@ def async_session(n_cmds, rng, snapshot="/repo/tests/snapshots/default.snapshot"
                 f = m.facade
                 spa = f.spa
                 for i in range(n_cmds):
-                    k = rng.randrange(6)
-                    if k == 0:
+                    k = rng.randrange(7)
+                    if k == 6:
+                        # a water-care change is a protocol request (answered by the peer with WCSET)
+                        await f.water_care.async_set_mode(rng.randrange(5))
+                    elif k == 0:
                         await spa.async_press(rng.choice([1, 2, 16, 21]))
                     elif k == 1 and f.pumps:
                         p = rng.choice(f.pumps)
@@ -86,7 +105,7 @@ def threaded_session(n_cmds, rng, snapshot="/repo/tests/snapshots/default.snapsh
     from geckolib.spa import GeckoSpa
     from geckolib.automation.facade import GeckoFacade
 
-    peer = SimPeer(snapshot)
+    peer = WcPeer(snapshot)
     with W2() as w2:
         spa = GeckoSpa(Descriptor())
         sock = MockSock(w2.clock)
@@ -111,8 +130,10 @@ def threaded_session(n_cmds, rng, snapshot="/repo/tests/snapshots/default.snapsh
             if not facade.is_connected:
                 raise env.MachineryError("threaded session: handshake did not complete against the simulator")
             for i in range(n_cmds):
-                k = rng.randrange(6)
-                if k == 0:
+                k = rng.randrange(7)
+                if k == 6:
+                    facade.water_care.set_mode(rng.randrange(5))
+                elif k == 0:
                     spa.press(rng.choice([1, 2, 16, 21]))
                 elif k == 1 and facade.pumps:
                     p = rng.choice(facade.pumps)
